@@ -9,6 +9,8 @@ TRUST = ('Trusted: nightly MIR == what stable rustc builds (counterexamples are 
          '(listed per run in the evidence, validated by the concrete differential self-test against the native binary). ')
 
 CLAIMED = {
+    'C03': ('A symbolic response model (result code 0..2^31-1 in 1..4 octets, message ID, any response tag, UTF-8 matched DN / text, referral list, SASL credentials, extended name/value, controls with OID/criticality/value; short and 81/82/84 long length forms) is reference-encoded and pushed through the real decode_inner -> parse_controls -> LdapResultExt::from; z3 proves every returned field equal to the model on every path. success()/non_error()/equal() of all four wrapper types are decided for all 2^32 result codes.',
+            TRUST + 'Strings <=2 (3) bytes, <=1 (2) referrals and controls; quick tier ties the length form of all inner levels. Result codes longer than 4 content octets are outside RFC 4511.', '§6 C03'),
     'C06': ('Every feasible path of the real decode_inner/parse_tag MIR over every byte string of <=6 (8) bytes is checked against an independent header reader (need-more iff the first TLV is incomplete and then nothing is consumed; exact consumption), and for each well-formed message skeleton with all content bytes symbolic: every proper prefix says need-more, and the item is identical whatever bytes follow. z3 discharges each obligation; counterexamples are replayed natively.',
             TRUST + "tokio_util::codec::Framed's read loop is trusted. Frames beyond the stated shapes are outside the bound.", '§6 C06'),
     'C07': ('Kani/CBMC decides the INTEGER/ENUMERATED, length-octet, identifier-octet and BOOLEAN kernels for every value of their machine types (unwinding assertions on); the MIR executor explores every path of encode_into/parse_tag/into_structure over all trees of depth<=2 (3), width<=2, payload<=2 bytes with symbolic classes, tag numbers, contents and trailers, payloads at the 127/128/255/256/65535/65536 boundaries, and every raw byte string of <=5 (7) bytes against an independent definite-length decoder.',
